@@ -127,6 +127,11 @@ class Repo:
             src = path.read_text(encoding="utf-8")
             try:
                 tree = ast.parse(src, filename=str(path))
+                try:
+                    from .desugar import Unsupported as _U, desugar
+                    tree = desugar(tree)
+                except _U as err:
+                    raise AnalysisError(f"{path}: match pattern outside the supported fragment: {err}") from err
             except SyntaxError as exc:  # a tree that does not parse is not analysable
                 raise AnalysisError(f"syntax error in {rel}: {exc}") from exc
             mod = Module(name, path, str(rel), tree, src, is_pkg)
